@@ -73,6 +73,8 @@ def site_of(f):
     """(site, kind) of a judge failure: the product member function (or the reduction) and what went wrong"""
     k = f.kind
     t = f.line.split(" ")
+    if k.startswith("op:") and k.endswith("/empty-arg"):
+        return "Partially_Reduced_Product::" + k[3:].split("/")[0], "lost-point-with-empty-argument"
     if k.startswith("op:"):
         return "Partially_Reduced_Product::" + k[3:].split("/")[0], "lost-point"
     if k.startswith("qry:"):
